@@ -100,6 +100,10 @@ type BatchObs struct {
 	StateEmpty bool     `json:"state_empty_before"`   // no endpoint and no consumer aggregate when the flush began
 	PreInserts int      `json:"pre_inserts"`          // convergence-reporting inserts seen before any other tree call
 	Unsettled  []string `json:"unsettled,omitempty"`  // grouping look-ups whose answer the tree no longer gives when Run has returned
+	// the tree calls of this flush one by one, and for every URL of those calls the
+	// key the tree gives once Run has returned (settle.go, SettleCalls.v)
+	Calls   []treeEvent `json:"-"`
+	EndKeys []Pair      `json:"-"`
 }
 
 type StatusCount struct {
@@ -144,9 +148,17 @@ type treeEvent struct {
 type recTree struct {
 	inner  *common.SimpleURLTree
 	events []treeEvent
+	// self-test of suite settle only (C15_SETTLE_SELFTEST=skip-on-empty | no-reinsert, never set
+	// by ./check): the wrapper swallows the NormalizeTree inserts of a flush that
+	// meets an empty aggregation — what the code does under seeded change C15-9 —
+	// so that the suite can be seen to report it without a patched tree of /repo
+	swallowConv bool
 }
 
 func (t *recTree) Insert(url string, v *common.EmptyStruct) error {
+	if settleSelfTest == "no-reinsert" { // NormalizeURL that only looks up: same counts, other calls
+		return nil
+	}
 	err := t.inner.Insert(url, v)
 	t.events = append(t.events, treeEvent{kind: "insert", url: url, err: err != nil})
 	return err
@@ -157,6 +169,9 @@ func (t *recTree) InsertDeclaredURL(url string, v *common.EmptyStruct) error {
 }
 
 func (t *recTree) InsertWithConvergenceIndication(url string, v *common.EmptyStruct) (bool, error) {
+	if t.swallowConv {
+		return false, nil
+	}
 	c, err := t.inner.InsertWithConvergenceIndication(url, v)
 	t.events = append(t.events, treeEvent{kind: "conv-insert", url: url, conv: c, err: err != nil})
 	return c, err
@@ -206,6 +221,8 @@ func buildTree(p *Plan) *common.SimpleURLTree {
 }
 
 var stateSeq int
+
+var settleSelfTest = os.Getenv("C15_SETTLE_SELFTEST")
 
 func openState(path string) *discovery.State {
 	st := &discovery.State{DiscoverFilepath: path}
@@ -265,6 +282,7 @@ func executeUnguarded(p *Plan) ([]BatchObs, Final) {
 			}
 		}
 		rt.events = rt.events[:0]
+		rt.swallowConv = settleSelfTest == "skip-on-empty" && nE == 0 && nC == 0
 		err := discovery.Run(st, logs, rt)
 		bo.Rejected = err != nil
 		deriveOracle(&bo, rt.events, len(batch) == 0, n, nE, nC)
